@@ -21,6 +21,16 @@
  *   p render <style> <decor> <forest> <hex>   (C09) the text of <forest> as written by the reference
  *                                     writer; the real code only takes <hex> as input
  *   p tree                            print the target
+ *   p config keep                     as `p config`, the handler keeps a SHARED reference (struct copy + addref, what the
+ *                                     copy constructor of mpt::path does) to the path buffer of every event; after the
+ *                                     parse the kept paths must still hold the bytes they had (kept=ok) and are released
+ *   p oom <k>                         mpt_parse_node of the input into a scratch target while the k-th allocation request
+ *                                     of the library is refused: a failure must leave the scratch target empty
+ *                                     (clean=yes) and after dropping the target the allocation balance must be that of
+ *                                     before (leak=0)
+ *   p deep <n> <closed|open>          default format, text of n nested sections `a{` ... `}` (open: the last `}` is
+ *                                     missing) through mpt_parse_node into a scratch target that is dropped afterwards:
+ *                                     nesting of any depth is a valid text (ret=0), the open one fails (ret<0)
  *   p stat                            observables of the last parse the spec does not speak about, compared with
  *                                     the model (section C): return code, line counter, getc calls, consumed bytes;
  *                                     behind `p node` also the number of values stored inline / buffer-backed
@@ -195,7 +205,61 @@ static const char *build_forest(const char *s, MPT_STRUCT(node) *parent)
 	}
 }
 
+/* ------------------------------------------------------------------ allocation refusal (linked with --wrap) */
+void *__real_malloc(size_t);
+void *__real_calloc(size_t, size_t);
+void *__real_realloc(void *, size_t);
+static long oom_at;          /* > 0: refuse this allocation request (counted from 1) */
+static long oom_count;       /* requests seen while counting */
+static int oom_on;
+static int oom_refuse(void)
+{
+	if (!oom_on) return 0;
+	++oom_count;
+	return oom_at > 0 && oom_count == oom_at;
+}
+void *__wrap_malloc(size_t n) { return oom_refuse() ? 0 : __real_malloc(n); }
+void *__wrap_calloc(size_t a, size_t b) { return oom_refuse() ? 0 : __real_calloc(a, b); }
+void *__wrap_realloc(void *p, size_t n) { return oom_refuse() ? 0 : __real_realloc(p, n); }
+
 /* ------------------------------------------------------------------ events */
+/* paths the handler keeps a shared reference to (`p config keep`) */
+struct kept { MPT_STRUCT(path) path; uint8_t *snap; size_t snaplen; };
+static struct kept *kept;
+static size_t nkept, capkept;
+static int keep_mode;
+static void keep_path(const MPT_STRUCT(path) *p, const MPT_STRUCT(value) *val)
+{
+	MPT_STRUCT(buffer) *buf;
+	struct kept *k;
+	size_t total;
+	if (!p->base || !(p->flags & MPT_PATHFLAG(HasArray))) return;
+	buf = ((MPT_STRUCT(buffer) *) p->base) - 1;
+	if (nkept == capkept) { capkept = capkept ? capkept * 2 : 64; kept = realloc(kept, capkept * sizeof(*kept)); }
+	k = &kept[nkept++];
+	k->path = *p;
+	buf->_vptr->addref(buf);
+	total = p->off + p->len;
+	if (val) total += ((const struct iovec *) val->_addr)->iov_len;
+	if (total > buf->_used) total = buf->_used;
+	k->snap = malloc(total + 1);
+	memcpy(k->snap, p->base, total);
+	k->snaplen = total;
+}
+/* all kept paths still hold their bytes; release them */
+static const char *release_kept(void)
+{
+	const char *res = "ok";
+	for (size_t i = 0; i < nkept; i++) {
+		struct kept *k = &kept[i];
+		if (memcmp(k->snap, k->path.base, k->snaplen)) res = "modified";
+		free(k->snap);
+		mpt_path_fini(&k->path);
+	}
+	nkept = 0;
+	return res;
+}
+
 struct event { int kind; uint8_t *path; size_t plen; uint8_t *val; size_t vlen; int hasval; };
 static struct event *evs;
 static size_t nev, capev;
@@ -209,6 +273,7 @@ static int record(void *ctx, const MPT_STRUCT(path) *p, const MPT_STRUCT(value) 
 	(void) ctx; (void) last;
 	if (!curr) return 0;   /* "new file" notification of mpt_parse_folder */
 	if (fail_at >= 0 && (long) nev == fail_at) { refused = 1; return -1; }   /* refused elements are not recorded */
+	if (keep_mode) keep_path(p, val);
 	if (nev == capev) { capev = capev ? capev * 2 : 64; evs = realloc(evs, capev * sizeof(*evs)); }
 	e = &evs[nev];
 	e->kind = curr;
@@ -482,8 +547,11 @@ int main(void)
 			MPT_STRUCT(parser_format) pf;
 			MPT_TYPE(input_parser) next;
 			int type, ret;
+			const char *keptres;
 			fail_at = -1;
-			if (drv_nw == 3) {
+			keep_mode = 0;
+			if (drv_nw == 3 && !strcmp(drv_w[2], "keep")) keep_mode = 1;
+			else if (drv_nw == 3) {
 				size_t k;
 				if (strncmp(drv_w[2], "fail=", 5) || drv_parse_nat(drv_w[2] + 5, &k)) { puts("bad-op"); continue; }
 				fail_at = (long) k;
@@ -492,14 +560,16 @@ int main(void)
 			type = mpt_parse_format(&pf, fmt_str);
 			if (!(next = mpt_parse_next_fcn(type))) {
 				snprintf(last_stat, sizeof(last_stat), "code=-3 line=1 getc=0 used=0");
-				printf("R err nest=- vals=ok refused=no | C . | I code=-3 line=1 getc=0 used=0 curr=0\n"); continue;
+				printf("R err nest=- vals=ok refused=no kept=ok | C . | I code=-3 line=1 getc=0 used=0 curr=0\n"); keep_mode = 0; continue;
 			}
 			clear_events();
 			vals_bad = 0; refused = 0;
 			ret = mpt_parse_config(next, &pf, &ctx, record, 0);
+			keep_mode = 0;
+			keptres = release_kept();
 			ob_reset(); put_events();
-			printf("R %s nest=%s vals=%s refused=%s | C %s", ret < 0 ? "err" : "ok", ret < 0 ? "-" : nest_verdict(), vals_bad ? vals_bad : "ok",
-			       refused ? "yes" : "no", ob);
+			printf("R %s nest=%s vals=%s refused=%s kept=%s | C %s", ret < 0 ? "err" : "ok", ret < 0 ? "-" : nest_verdict(), vals_bad ? vals_bad : "ok",
+			       refused ? "yes" : "no", keptres, ob);
 			put_internals(ret, &ctx);
 			snprintf(last_stat, sizeof(last_stat), "code=%d line=%zu getc=%zu used=%zu", ret, ctx.src.line, getc_calls, input_pos);
 			clear_events();
@@ -566,6 +636,48 @@ int main(void)
 			printf("R %s sound=%s | C %s | I code=%d\n", ret < 0 ? "err" : "ok", unsound ? unsound : "ok", ob, ret);
 			snprintf(last_stat, sizeof(last_stat), "code=%d", ret);
 		}
+		else if (!strcmp(op, "deep") && drv_nw == 4) {
+			MPT_STRUCT(parser_context) ctx;
+			MPT_STRUCT(node) tmp = MPT_NODE_INIT;
+			uint8_t *save_in = input; size_t save_len = input_len; int save_end = input_end;
+			size_t n, closing;
+			int ret, open_;
+			if (drv_parse_nat(drv_w[2], &n) || !n || n > 4000000) { puts("bad-op"); continue; }
+			if (!strcmp(drv_w[3], "open")) open_ = 1;
+			else if (!strcmp(drv_w[3], "closed")) open_ = 0;
+			else { puts("bad-op"); continue; }
+			closing = open_ ? n - 1 : n;
+			input_len = 2 * n + closing;
+			input = malloc(input_len + 1);
+			for (size_t i = 0; i < n; i++) { input[2 * i] = 'a'; input[2 * i + 1] = '{'; }
+			memset(input + 2 * n, '}', closing);
+			input_end = -2;
+			setup_ctx(&ctx);
+			ret = mpt_parse_node(&tmp, &ctx, 0);
+			mpt_node_clear(&tmp);
+			free(input);
+			input = save_in; input_len = save_len; input_end = save_end; input_pos = 0;
+			printf("R %s\n", ret < 0 ? "err" : "ok");
+			snprintf(last_stat, sizeof(last_stat), "-");
+		}
+		else if (!strcmp(op, "oom") && drv_nw == 3) {
+			MPT_STRUCT(parser_context) ctx;
+			MPT_STRUCT(node) tmp = MPT_NODE_INIT;
+			size_t k, before, after;
+			int ret, clean;
+			if (drv_parse_nat(drv_w[2], &k) || !k) { puts("bad-op"); continue; }
+			setup_ctx(&ctx);
+			before = __sanitizer_get_current_allocated_bytes();
+			oom_at = (long) k; oom_count = 0; oom_on = 1;
+			ret = mpt_parse_node(&tmp, &ctx, fmt_str);
+			oom_on = 0;
+			clean = ret >= 0 || !tmp.children;
+			mpt_node_clear(&tmp);
+			after = __sanitizer_get_current_allocated_bytes();
+			(void) ret;
+			printf("R ok clean=%s leak=%ld\n", clean ? "yes" : "no", (long) after - (long) before);
+			snprintf(last_stat, sizeof(last_stat), "-");
+		}
 		else if (!strcmp(op, "stat") && drv_nw == 2) {
 			/* observables of the last parse that the spec column does not speak about: compared with the model */
 			printf("R ok | C %s\n", last_stat);
@@ -613,6 +725,6 @@ int main(void)
 		else puts("bad-op");
 	}
 	mpt_node_clear(&root);
-	free(input); free(fmt_str); clear_events(); free(evs); free(ob);
+	free(input); free(fmt_str); clear_events(); free(evs); free(ob); free(kept);
 	return 0;
 }
